@@ -82,3 +82,46 @@ OBLIGATIONS.append(Obl(name="Span.style_true_string", module="h_attrs", func="at
 
 OBLIGATIONS.append(Obl(name="ListItem.text_content", module="h_attrs", func="text_content_arg", shadow=True, timeout=200, replay="r_h_attrs:text_content_arg", weight=15,
                        bounds="ListItem(s), s of <= 3 characters over {a, space, LF}", encodes=["src/odfdo/element.py:Element.text_content (getter/setter)", "src/odfdo/list.py:ListItem.__init__"], stubs=_STUB))
+
+
+def _joint():
+    from odfdo.element import _class_registry
+    out = []
+    for c in sorted({c for c in _class_registry.values()}, key=lambda c: (c.__module__, c.__name__)):
+        props = {}
+        for k in reversed(c.__mro__):
+            for p in getattr(k, "_properties", ()):
+                props[p.name] = p
+        try:
+            sig = inspect.signature(c.__init__)
+        except Exception:
+            continue
+        strs, elems = [], []
+        for pname, par in sig.parameters.items():
+            ann = str(par.annotation)
+            if pname in props and ann in ("str", "str | None") and (c.__name__, pname) not in SKIP:
+                strs.append(pname)
+            elif "Element" in ann and pname in ("text_or_element", "list_content"):  # a content argument: any element will do
+                elems.append(pname)
+        if len(strs) + len(elems) >= 2 and strs:
+            out.append((c.__module__, c.__name__, strs, elems))
+    return out
+
+
+JOINT_EXTRA = {"Style": {"family": "paragraph"}}
+JOINT_SKIP = {"Style": ["page_layout", "next_style", "font_family_generic", "font_pitch"]}
+for _mod, _cls, _strs, _elems in _joint():
+    if _cls == "MetaAutoReload":
+        continue
+    _env = {"VERIF_CLS": f"{_mod}:{_cls}"}
+    _skip = JOINT_SKIP.get(_cls, []) + [p for (c, p) in SKIP if c == _cls]
+    _names = [p for p in _strs if p not in _skip]
+    _x = {"cls": f"{_mod}:{_cls}", "names": _names, "elems": _elems}
+    if _cls in JOINT_EXTRA:
+        _env["VERIF_EXTRA"] = repr(JOINT_EXTRA[_cls])
+        _x["extra"] = JOINT_EXTRA[_cls]
+    if _skip:
+        _env["VERIF_SKIP"] = repr(_skip)
+    OBLIGATIONS.append(Obl(name=f"{_cls}.joint", module="h_attrs", func="attr_joint", shadow=True, timeout=200, env=_env, extra=_x, replay="r_h_attrs:attr_joint", weight=6,
+                           bounds=f"{_cls}(" + ", ".join(f"{p}=s+'{chr(97 + i)}'" for i, p in enumerate(_names)) + ("".join(f", {p}=<Paragraph> or absent" for p in _elems)) + ") with s a symbolic string of 1..2 printable ASCII characters",
+                           encodes=_ENC, stubs=_STUB))
